@@ -17,7 +17,7 @@ theorem stepModel_skip_of_not_cls {rec : Ty → Ty → Answer} {cfg : Cfg} {src 
 theorem builtin_iterable {cfg : Cfg} (hrecipe : cfg.recipe = builtinRecipe) {src dst a b : Ty} {f : Conc}
     (hs : parseIterSrc src = some a) (hd : parseIterDst dst = some (f, b)) {n : Nat} {c : Coercer}
     (h : provide cfg (n + 1) src dst = .ok c) :
-    ∃ ce, provide cfg n a b = .ok ce ∧ c.kind = .iterable := by
+    ∃ ce, provide cfg n a b = .ok ce ∧ c.kind = .iterable ∧ c.run = iterRun f ce.run := by
   obtain ⟨k, rfl⟩ := parseIterSrc_eq hs
   unfold provide at h
   rw [hrecipe, builtinRecipe_eq] at h
@@ -28,14 +28,15 @@ theorem builtin_iterable {cfg : Cfg} (hrecipe : cfg.recipe = builtinRecipe) {src
   | ok ce =>
     simp only [hr, mandatory] at h
     cases h
-    exact ⟨ce, rfl, rfl⟩
+    exact ⟨ce, rfl, rfl, rfl⟩
   | notFound => simp [hr, mandatory] at h
   | outOfFuel => simp [hr, mandatory] at h
 
 theorem builtin_dict {cfg : Cfg} (hrecipe : cfg.recipe = builtinRecipe) {src dst sk sv dk dv : Ty}
     (hs : parseDictSrc src = some (sk, sv)) (hd : parseDictDst dst = some (dk, dv)) {n : Nat} {c : Coercer}
     (h : provide cfg (n + 1) src dst = .ok c) :
-    ∃ kc vc, provide cfg n sk dk = .ok kc ∧ provide cfg n sv dv = .ok vc ∧ c.kind = .dict := by
+    ∃ kc vc, provide cfg n sk dk = .ok kc ∧ provide cfg n sv dv = .ok vc ∧ c.kind = .dict ∧
+      c.run = dictRun kc.run vc.run := by
   obtain ⟨k, rfl⟩ := parseDictSrc_eq hs
   unfold provide at h
   rw [hrecipe, builtinRecipe_eq] at h
@@ -49,7 +50,7 @@ theorem builtin_dict {cfg : Cfg} (hrecipe : cfg.recipe = builtinRecipe) {src dst
     | ok vc =>
       simp only [hr2] at h
       cases h
-      exact ⟨kc, vc, rfl, rfl, rfl⟩
+      exact ⟨kc, vc, rfl, rfl, rfl, rfl⟩
     | notFound => simp [hr2] at h
     | outOfFuel => simp [hr2] at h
   | notFound => simp [hr, mandatory] at h
@@ -58,7 +59,9 @@ theorem builtin_dict {cfg : Cfg} (hrecipe : cfg.recipe = builtinRecipe) {src dst
 theorem builtin_optional {cfg : Cfg} (hrecipe : cfg.recipe = builtinRecipe) {src dst a b : Ty}
     (hs : IsOptionalOf src a) (hd : IsOptionalOf dst b) (ha : a ≠ .none) (hb : b ≠ .none)
     {n : Nat} {c : Coercer} (h : provide cfg (n + 1) src dst = .ok c) :
-    ∃ ce, provide cfg n a b = .ok ce := by
+    ∃ ce, provide cfg n a b = .ok ce ∧
+      ((ce.isAsIs = true ∧ c = asIsCoercer) ∨
+       (ce.isAsIs = false ∧ c.kind = .optional ∧ c.run = optionalRun ce.run)) := by
   have hos : isOptional src = true ∧ getNotNone src = some a := by
     have hna : isNoneTy a = false := by
       cases hx : isNoneTy a with
@@ -80,7 +83,18 @@ theorem builtin_optional {cfg : Cfg} (hrecipe : cfg.recipe = builtinRecipe) {src
   simp only [stepIterable, parseIterSrc, stepDict, parseDictSrc, stepOptional, hos.1, hod.1, hos.2, hod.2,
     Bool.and_self, if_true] at h
   cases hr : provide cfg n a b with
-  | ok ce => exact ⟨ce, rfl⟩
+  | ok ce =>
+    refine ⟨ce, rfl, ?_⟩
+    simp only [hr, mandatory] at h
+    cases hce : ce.isAsIs with
+    | true =>
+      simp only [hce, if_true] at h
+      cases h
+      exact .inl ⟨rfl, rfl⟩
+    | false =>
+      simp only [hce] at h
+      cases h
+      exact .inr ⟨rfl, rfl, rfl⟩
   | notFound => simp [hr, mandatory] at h
   | outOfFuel => simp [hr, mandatory] at h
 
